@@ -21,6 +21,7 @@ class TcpClient(object):
             print("datatype must be either raw, beast or skysense")
             os._exit(1)
 
+        self.current_msg = ""
         self.raw_pipe_in = None
         self.stop_flag = False
 
@@ -46,7 +47,6 @@ class TcpClient(object):
         messages = []
 
         msg_stop = False
-        self.current_msg = ""
         for b in self.buffer:
             if b == 59:
                 msg_stop = True
